@@ -178,7 +178,7 @@ def isReader (e : Entry) : Bool := (parseName e.name).isSome
 
 inductive Val
   | u (n : Nat) | s (i : Int) | big (i : Int) | f (bits : Nat) | b (v : Bool)
-  | t (utf8 : List Nat) | tUnmodelled | bits (n : Nat) (bytes : List Nat)
+  | t (utf8 : List Nat) | bits (n : Nat) (bytes : List Nat)
 deriving DecidableEq, Repr, Inhabited
 
 inductive ArgVal | int (i : Int) | endian (e : Endian) | enc (e : Enc)
@@ -196,9 +196,7 @@ def resolveArg (cur : Endian) (actual : List ArgVal) : Arg → Option ArgVal
   | .unknown => none
 
 def textVal (e : Enc) (r : Res (List Nat)) : Res Val :=
-  r.map fun frame => match decodeText e frame with
-    | some b => .t b
-    | none => .tUnmodelled
+  r.map fun frame => .t (decodeText e frame)
 
 def runCore (bs : Bits) (pos : Nat) : CoreFn → List ArgVal → Option (Res Val)
   | .tryUEndian, [.int n, .endian e] => some ((tryUEndianI bs pos n e).map .u)
